@@ -1,3 +1,48 @@
-From WalModel Require Import Eval.
-Theorem tmp : True. Proof. exact I. Qed.
-Print Assumptions tmp.
+(** C17 — completed evaluations leave a balanced context; run starts fresh.
+    Statements only; proofs in proofs/Balanced.v (one lemma per combinator and per
+    operator, the whole evaluator by induction on fuel) and proofs/ApiBalanced.v. *)
+From WalModel Require Import Api.
+From WalModel.proofs Require Import Balanced ApiBalanced.
+Local Open Scope Z_scope.
+
+(** T-bal: whatever an evaluation nests - calls, let, macros, captured scopes and groups,
+    relative evaluation, scans, any of the ~100 operators - when it completes the current
+    environment is the one it was entered with and the stack of saved positions is unchanged;
+    the same for the macro-expansion pass.  Any fuel, any expression, any state. *)
+Theorem balanced_context : forall lf fuel,
+  (forall e st v st', eval lf fuel e st = Ok v st' ->
+     st_cur st' = st_cur st /\ c_stack (st_cont st') = c_stack (st_cont st)) /\
+  (forall e p st v st', expand lf fuel e p st = Ok v st' ->
+     st_cur st' = st_cur st /\ c_stack (st_cont st') = c_stack (st_cont st)).
+Proof.
+  intros lf fuel. destruct (eval_expand_balanced lf fuel) as [He Hx]. split.
+  - intros e st v st' H. exact (He e st v st' H).
+  - intros e p st v st' H. exact (Hx e p st v st' H).
+Qed.
+Print Assumptions balanced_context.
+
+(** over every history of top-level evaluations (Wal.eval with any pass selection and
+    keyword bindings; failed ones end the session): between evaluations the interpreter is
+    in the global environment and no saved position is pending *)
+Theorem top_level_between_evaluations : forall h st, at_top st -> at_top (fold_left run_top h st).
+Proof. exact history_at_top. Qed.
+Print Assumptions top_level_between_evaluations.
+
+(** Wal.run depends on the prior state only through its reset: two interpreters with the
+    same traces (after rewinding), output and files run a program identically, whatever
+    definitions, macros, aliases, scope, group or positions they had *)
+Theorem run_is_fresh : forall e kw st1 st2,
+  ast_truthy e = true -> reset_state st1 = reset_state st2 -> wal_run e kw st1 = wal_run e kw st2.
+Proof. exact wal_run_starts_fresh. Qed.
+Print Assumptions run_is_fresh.
+
+Theorem reset_is_initial : forall st,
+  st_cur (reset_state st) = global_id /\ st_scope (reset_state st) = "" /\ st_group (reset_state st) = "" /\
+  st_aliases (reset_state st) = [] /\ st_gensym (reset_state st) = 0 /\
+  st_frames (reset_state st) = [mkFrame fresh_globals None] /\
+  (forall tid t, alookup tid (c_traces (st_cont (reset_state st))) = Some t -> tr_index t = 0).
+Proof. exact reset_state_fields. Qed.
+Print Assumptions reset_is_initial.
+
+Example top_nonvacuous : at_top empty_state.
+Proof. split; reflexivity. Qed.
